@@ -8,7 +8,7 @@ RASD_NS = "http://schemas.dmtf.org/wbem/wscim/1/cim-schema/2/CIM_ResourceAllocat
 VBOX_NS = "http://www.virtualbox.org/"
 DISK_TYPES = [None, "disk", "scsi-hardDisk", "ata-hardDisk", "Disk", "SCSI-HARDDISK"]
 NON_DISK_TYPES = ["cdrom-image", "cdrom-raw", "atapi-cdrom", "CDROM-IMAGE"]
-NAMECH = "abcdefghXYZ0123456789 _-.()é日😀"
+NAMECH = "abcdefghXYZ0123456789 _-.()é日😀#=;!'&"
 
 
 def fname(rng, ext: str) -> str:
@@ -166,7 +166,8 @@ def gen_vbox(rng, doctype: str = "", lead: str = ""):
         attrs = f'uuid="{{{rng.getrandbits(32):08x}-0000-4000-8000-000000000000}}" location={quoteattr(loc)} format="{fmt}"'
         if typ is not None:
             attrs += f' type="{typ}"'
-        if depth == 0 and typ == "Normal" and fmt.lower() == "vdi":
+        if typ == "Normal" and fmt.lower() == "vdi":
+            # explicit Normal VDI entries are the VM's hard disks at any nesting depth of the registry
             must.append(loc)
         else:
             maybe.append(loc)
